@@ -45,7 +45,7 @@ fn faucet_shape(w: &mut World, r: &mut Rng) -> Transaction {
             CoinData { covhash: w.owners[i % 4].addr_new, value: CoinValue(r.loguniform(100)), denom, additional_data: Bytes::from(r.bytes(r.clone().usize(5))) }
         })
         .collect();
-    Transaction {
+    let mut tx = Transaction {
         kind: TxKind::Faucet,
         inputs: vec![],
         outputs: outs,
@@ -53,7 +53,20 @@ fn faucet_shape(w: &mut World, r: &mut Rng) -> Transaction {
         covenants: if r.chance(1, 5) { vec![Bytes::from(r.bytes(5))] } else { vec![] },
         data: Bytes::from(r.bytes(r.clone().usize(30))),
         sigs: vec![],
+    };
+    // a faucet may also carry (properly authorised) inputs; it is a faucet all the same
+    if r.chance(1, 4) {
+        let sp = w.spendable();
+        if !sp.is_empty() {
+            let n = 1 + r.usize(2.min(sp.len()));
+            let inputs: Vec<_> = (0..n).map(|i| sp[(i * 7 + r.usize(sp.len())) % sp.len()].clone()).collect();
+            let mut seen = HashSet::new();
+            let inputs: Vec<_> = inputs.into_iter().filter(|(id, _)| seen.insert(*id)).collect();
+            tx.inputs = inputs.iter().map(|x| x.0).collect();
+            w.authorise(&mut tx, &inputs);
+        }
     }
+    tx
 }
 
 struct Lineage {
@@ -62,7 +75,7 @@ struct Lineage {
 
 pub fn run(p: &Params) -> Report {
     let mut rep = Report::new("C19");
-    rep.rule = "cases = faucet applications: on each of the 9 network ids a history of up to 30 blocks in which faucet transactions of many shapes (0-255 outputs, all denominations, data, the grandfathered mainnet transaction on every network) are applied and then replayed in the same batch, in a later batch of the same block, 1-30 blocks later, with a different sigs field, inside a batch among other transactions, and after a restart through from_block (copied store). Oracle: on mainnet only the grandfathered hash may be accepted; elsewhere each hash_nosigs is accepted at most once per lineage. Non-trivial = every replay attempt; distinct by (network, hash, replay point)".into();
+    rep.rule = "cases = faucet applications: on each of the 9 network ids a history of up to 30 blocks in which faucet transactions of many shapes (0-255 outputs, all denominations, data, with and without authorised inputs, the grandfathered mainnet transaction on every network) are applied and then replayed in the same batch, in a later batch of the same block, 1-30 blocks later, with a different sigs field, inside a batch among other transactions, and after a restart through from_block (copied store). Oracle: on mainnet only the grandfathered hash may be accepted; elsewhere each hash_nosigs is accepted at most once per lineage. Non-trivial = every replay attempt; distinct by (network, hash, replay point)".into();
     let total = p.n(180, 3600);
     let mine = p.share(total);
     let mut rng = Rng::new(p.shard_seed() ^ 0xC19);
@@ -103,6 +116,9 @@ pub fn run(p: &Params) -> Report {
             fp.extend_from_slice(point.as_bytes());
             rep.nontrivial(fnv(&fp));
             rep.count(&format!("attempts: {} -> {}", point, if accepted { "accepted" } else { "rejected" }));
+            if txs.iter().any(|t| t.kind == TxKind::Faucet && !t.inputs.is_empty()) {
+                rep.count(&format!("attempts with a faucet that carries inputs ({})", if w.net == NetID::Mainnet { "mainnet" } else { "other networks" }));
+            }
             let wit = json!({"case_seed": case_seed, "origin": w.origin, "network": format!("{:?}", w.net), "replay_point": point, "height": ev.pre.snap.height.0, "txs_hex": txs.iter().map(tx_hex).collect::<Vec<_>>(), "result": format!("{:?}", ev.result.as_ref().map_err(|p| p.message.clone()))});
             if accepted {
                 let mut seen_in_batch: HashSet<TxHash> = HashSet::new();
